@@ -24,12 +24,24 @@ func newNumberDecoder(structName, fieldName string, op func(unsafe.Pointer, json
 	}
 }
 
+// validateNumberLiteral: a json.Number keeps the text of the literal, which has to be a
+// number but does not have to fit a float64.
+func validateNumberLiteral(s string) error {
+	if _, err := strconv.ParseFloat(s, 64); err != nil {
+		if ne, ok := err.(*strconv.NumError); ok && ne.Err == strconv.ErrRange {
+			return nil
+		}
+		return err
+	}
+	return nil
+}
+
 func (d *numberDecoder) DecodeStream(s *Stream, depth int64, p unsafe.Pointer) error {
 	bytes, err := d.decodeStreamByte(s)
 	if err != nil {
 		return err
 	}
-	if _, err := strconv.ParseFloat(*(*string)(unsafe.Pointer(&bytes)), 64); err != nil {
+	if err := validateNumberLiteral(*(*string)(unsafe.Pointer(&bytes))); err != nil {
 		return errors.ErrSyntax(err.Error(), s.totalOffset())
 	}
 	d.op(p, json.Number(string(bytes)))
@@ -42,7 +54,7 @@ func (d *numberDecoder) Decode(ctx *RuntimeContext, cursor, depth int64, p unsaf
 	if err != nil {
 		return 0, err
 	}
-	if _, err := strconv.ParseFloat(*(*string)(unsafe.Pointer(&bytes)), 64); err != nil {
+	if err := validateNumberLiteral(*(*string)(unsafe.Pointer(&bytes))); err != nil {
 		return 0, errors.ErrSyntax(err.Error(), c)
 	}
 	cursor = c
